@@ -227,3 +227,19 @@ Qed.
 
 Example ex_str_accepted : wt ex_str = true /\ small_program ex_str.
 Proof. split; [vm_compute; reflexivity|exact ex_str_small]. Qed.
+
+(* outside the common domain of char_at:   fn main() -> int { (println (char_at "abc" 3))  return 0 }
+   the reference is undefined there (FStrDomain: the engines disagree, finding lang:char-at-out-of-range); the VM model prints
+   what the real VM prints (-1).  vm_correct and backends_agree say nothing about this run *)
+Definition ex_str_dom : program :=
+  {| pglobals := [];
+     pfns := [ {| fname := 0; fparams := []; fret := TInt;
+                  fbody := SSeq (SPrint true (EStr2 SCharAt (EStr [97; 98; 99]) (ENum 3))) (SReturn (Some (ENum 0))) |} ];
+     pmain := 0 |}.
+Example ex_str_dom_runs : exists M, compile_program ex_str_dom = Some M /\
+  run_ref 50 ex_str_dom = Faulted FStrDomain [] /\ run_vm 500 M = VDone [45; 49; 10] 0.
+Proof.
+  destruct (compile_program ex_str_dom) as [M|] eqn:E; [|vm_compute in E; discriminate E].
+  exists M. split; [reflexivity|]. split; [vm_compute; reflexivity|].
+  vm_compute in E. injection E as <-. vm_compute. reflexivity.
+Qed.
